@@ -15,10 +15,14 @@
 (*   Aggregate        protocol/comm/clique.go                                                              *)
 (*                                                                                                        *)
 (* All certificates are genuine in this model (honest senders; crash faults only): a certificate can fail   *)
-(* to verify only because its block cannot be obtained.  The simple timeout rule (TC) is modelled; the        *)
-(* aggregate rule (Fast-HotStuff) is not.                                                                   *)
+(* to verify only because its block cannot be obtained.  Both timeout rules are modelled: the simple one      *)
+(* (TC) and the aggregate one (TC + aggregate QC, Fast-HotStuff; E.agg).  As coded, the aggregate rule         *)
+(* ignores a plain QC in sync info (timeoutrule_aggregate.go VerifySyncInfo): proposals and collected votes     *)
+(* never advance the view or the high QC -- the model says what the code does (known finding D11).              *)
 (*                                                                                                        *)
-(* E (environment of a step): n, q, leaders, rs (ruleset), reg (block registry: id -> view, parent, qc),   *)
+(* Sync info: [qc, tc, agg, aggqcs] = certified block or -2, TC view or -1, aggregate-QC view or -1, the blocks   *)
+(* certified by the QCs inside the aggregate QC.                                                            *)
+(* E (environment of a step): n, q, leaders, rs (ruleset), agg, reg (block registry: id -> view, parent, qc), *)
 (* avail (blocks a fetch returns in this step), newb (blocks that were created in this step).               *)
 EXTENDS Integers, Sequences, FiniteSets, TLC
 
@@ -27,6 +31,7 @@ V(E, b) == E.reg[b].view
 Par(E, b) == E.reg[b].parent
 QcOf(E, b) == E.reg[b].qc
 Max(a, b) == IF a >= b THEN a ELSE b
+SI(qc, tc) == [qc |-> qc, tc |-> tc, agg |-> -1, aggqcs |-> {}]
 
 \* ---- replica state -----------------------------------------------------------------------------------
 InitReplica(id) ==
@@ -36,7 +41,7 @@ InitReplica(id) ==
      tbag |-> {},                    \* timeoutCollector.timeouts as pairs <<sender, view>>
      dP |-> <<>>,                    \* proposals deferred until the next ViewChangeEvent
      dV |-> <<>>,                    \* votes deferred until the next ProposeMsg
-     lastTO |-> 0, lastTOsi |-> [qc |-> -2, tc |-> -1],
+     lastTO |-> 0, lastTOsi |-> [qc |-> -2, tc |-> -1, agg |-> -1, aggqcs |-> {}],
      lastProposed |-> 0, proposed |-> {},
      queue |-> <<>>,
      out |-> <<>>, signed |-> <<>>, commits |-> <<>>, vcs |-> <<>>, miss |-> FALSE]
@@ -57,8 +62,20 @@ VoteRule(E, s, b) ==
     CASE E.rs = "chainedhotstuff" -> \/ (Get(E, s, qb) /\ V(E, qb) > V(E, s.lock))
                                      \/ ExtendsFrom(E, s, b, s.lock)
       [] E.rs = "simplehotstuff" -> Get(E, s, qb) /\ V(E, qb) >= V(E, s.lock)
+\* FastHotStuff.VoteRule: with an aggregate QC the block must extend the block of its QC, otherwise its view is the QC's + 1
+FastVoteRule(E, s, b, hasAgg) ==
+    IF hasAgg THEN Get(E, s, QcOf(E, b)) /\ ExtendsFrom(E, s, b, QcOf(E, b))
+    ELSE V(E, b) = V(E, QcOf(E, b)) + 1
 \* CommitRule: [lock |-> new lock, commit |-> block to commit or -1]
 CommitRule(E, s, b) ==
+    IF E.rs = "fasthotstuff" THEN                                       \* two-chain, no lock
+        LET p == QcOf(E, b) IN
+        IF ~Get(E, s, p) THEN [lock |-> s.lock, commit |-> -1] ELSE
+        LET gp == QcOf(E, p) IN
+        IF ~Get(E, s, gp) THEN [lock |-> s.lock, commit |-> -1] ELSE
+        [lock |-> s.lock, commit |-> IF /\ Par(E, b) = p /\ V(E, b) = V(E, p) + 1
+                                        /\ Par(E, p) = gp /\ V(E, p) = V(E, gp) + 1 THEN gp ELSE -1]
+    ELSE
     LET b1 == QcOf(E, b) IN
     IF ~Get(E, s, b1) THEN [lock |-> s.lock, commit |-> -1] ELSE
     LET b2 == QcOf(E, b1) IN
@@ -101,7 +118,7 @@ CollectVote(E, s, ev) ==
                   cnt == Cardinality({e \in s1.vbag : e[1] = ev.block}) IN
               IF cnt < E.q THEN VbagClean(E, s1)
               ELSE VbagClean(E, [s1 EXCEPT !.vbag = {e \in @ : e[1] # ev.block},
-                                           !.queue = Append(@, [type |-> "newview", from |-> s.id, si |-> [qc |-> ev.block, tc |-> -1]])])
+                                           !.queue = Append(@, [type |-> "newview", from |-> s.id, si |-> SI(ev.block, -1)])])
 \* clique.Aggregate: the vote goes to the leader of the next view (collected directly when that is this replica)
 Aggregate(E, s, b) ==
     LET nl == LeaderOf(E, V(E, b) + 1) IN
@@ -110,9 +127,14 @@ Aggregate(E, s, b) ==
 SignVote(s, b, view) == [s EXCEPT !.signed = Append(@, <<"vote", b>>), !.lv = view]
 
 \* Voter.Verify (the certificate is genuine: it verifies iff its block can be obtained; the genesis certificate needs no block)
-VerifyProposal(E, s, b, from) ==
+\* the highest QC of an aggregate QC whose block can be obtained (Authority.findHighestValidQC), -2 if there is none
+AggHigh(E, s, qcs) ==
+    LET valid == {c \in qcs : c = 0 \/ Get(E, s, c)} IN
+    IF valid = {} THEN -2 ELSE CHOOSE c \in valid : \A d \in valid : V(E, d) <= V(E, c)
+VerifyProposal(E, s, b, from, pagg) ==
     /\ V(E, b) > s.lv
-    /\ VoteRule(E, s, b)
+    /\ IF E.rs = "fasthotstuff" THEN FastVoteRule(E, s, b, pagg.v >= 0) ELSE VoteRule(E, s, b)
+    /\ (E.agg /\ pagg.v >= 0) => AggHigh(E, s, pagg.qcs) = QcOf(E, b)        \* VerifyAnyQC: the block's QC is the aggregate's high QC
     /\ (QcOf(E, b) = 0 \/ Get(E, s, QcOf(E, b)))
     /\ Par(E, b) = QcOf(E, b)
     /\ V(E, b) > V(E, QcOf(E, b))
@@ -122,30 +144,39 @@ VerifyProposal(E, s, b, from) ==
 RECURSIVE MarkOK(_, _, _)
 MarkOK(E, s, b) == Get(E, s, b) /\ (V(E, b) <= s.lastProposed \/ MarkOK(E, s, QcOf(E, b)))      \* Proposer.markProposed
 \* Voter.Verify applied to the block the proposer is about to create (view s.view, parent = certified block = qc)
-VerifyNew(E, s, qc) ==
+VerifyNew(E, s, qc, si) ==
     /\ s.view > s.lv
     /\ Get(E, s, qc)
     /\ CASE E.rs = "chainedhotstuff" -> \/ V(E, qc) > V(E, s.lock)
                                         \/ (s.view > V(E, s.lock) /\ ExtendsFrom(E, s, qc, s.lock))
          [] E.rs = "simplehotstuff" -> V(E, qc) >= V(E, s.lock)
+         [] E.rs = "fasthotstuff" -> IF si.agg >= 0 THEN AggHigh(E, s, si.aggqcs) = qc ELSE s.view = V(E, qc) + 1
     /\ s.view > V(E, qc)
 ProposeNew(E, s, si) ==
     IF ~MarkOK(E, s, s.hqc) THEN s ELSE
     LET s1 == [s EXCEPT !.lastProposed = s.view] IN
     IF si.qc = -2 THEN s1 ELSE                                                \* ProposeRule: no QC in the sync info
-    IF ~VerifyNew(E, s1, si.qc) THEN s1 ELSE                                  \* Proposer.Propose: the own proposal must pass Voter.Verify
+    IF ~VerifyNew(E, s1, si.qc, si) THEN s1 ELSE                                  \* Proposer.Propose: the own proposal must pass Voter.Verify
     LET cands == {i \in 1..Len(E.newb) : /\ E.newb[i].by = s.id /\ E.newb[i].view = s.view /\ E.newb[i].qc = si.qc
                                          /\ E.newb[i].parent = si.qc /\ E.newb[i].id \notin s.proposed} IN
     IF cands = {} THEN [s1 EXCEPT !.miss = TRUE] ELSE                        \* the model proposes, the code did not
     LET b == E.newb[CHOOSE i \in cands : \A j \in cands : i <= j].id
         s2 == [s1 EXCEPT !.proposed = @ \cup {b}]
         s3 == TryCommit(E, SignVote(s2, b, V(E, b)), b)
-        s4 == Send(s3, [type |-> "propose", to |-> 0, block |-> b]) IN
+        s4 == Send(s3, [type |-> "propose", to |-> 0, block |-> b, agg |-> IF E.agg THEN si.agg ELSE -1]) IN
     Aggregate(E, s4, b)
 
 \* ---- view synchronisation ------------------------------------------------------------------------------------------
 \* Simple.VerifySyncInfo
 SyncView(E, s, si) ==
+    IF E.agg THEN                                                         \* Aggregate.VerifySyncInfo: a plain QC is not looked at
+        LET hasTC == si.tc >= 0
+            tcv == IF hasTC THEN si.tc ELSE 0
+            hq == AggHigh(E, s, si.aggqcs) IN
+        IF si.agg < 0 THEN [ok |-> TRUE, view |-> tcv, timeout |-> hasTC, qc |-> -2]
+        ELSE IF hq = -2 THEN [ok |-> FALSE, view |-> 0, timeout |-> FALSE, qc |-> -2]
+        ELSE [ok |-> TRUE, view |-> IF si.agg >= tcv THEN si.agg ELSE tcv, timeout |-> TRUE, qc |-> hq]
+    ELSE
     LET hasTC == si.tc >= 0
         hasQC == si.qc # -2
         tcv == IF hasTC THEN si.tc ELSE 0 IN
@@ -158,7 +189,7 @@ AdvanceView(E, s, si) ==
     IF ~r.ok THEN s ELSE
     LET s1 == IF si.tc > s.htc THEN [s EXCEPT !.htc = si.tc] ELSE s
         s2 == IF r.qc # -2 /\ V(E, r.qc) > V(E, s1.hqc) THEN [s1 EXCEPT !.hqc = r.qc, !.store = @ \cup {r.qc}] ELSE s1
-        siOut == [qc |-> IF r.qc # -2 THEN s2.hqc ELSE -2, tc |-> si.tc] IN
+        siOut == [si EXCEPT !.qc = IF r.qc # -2 THEN s2.hqc ELSE si.qc] IN     \* syncInfo.SetQC(HighQC) when a QC was found
     IF r.view < s2.view THEN s2 ELSE
     LET nv == s2.view + 1
         s3 == [s2 EXCEPT !.view = nv, !.lastTO = 0, !.vcs = Append(@, <<nv, r.timeout>>), !.queue = Append(@, [type |-> "viewchange"])] IN
@@ -167,27 +198,32 @@ AdvanceView(E, s, si) ==
 
 OnPropose(E, s, ev) ==
     LET b == ev.block
-        s1 == AdvanceView(E, s, [qc |-> QcOf(E, b), tc |-> -1]) IN
+        s1 == AdvanceView(E, s, SI(QcOf(E, b), -1)) IN
     IF V(E, b) > s1.view + 10 THEN s1
     ELSE IF V(E, b) > s1.view THEN [s1 EXCEPT !.dP = Append(@, ev)]
-    ELSE IF ~VerifyProposal(E, s1, b, ev.from) THEN s1
+    ELSE IF ~VerifyProposal(E, s1, b, ev.from, ev.agg) THEN s1
     ELSE LET s2 == TryCommit(E, s1, b) IN Aggregate(E, SignVote(s2, b, V(E, b)), b)
 
+\* (the collector keeps <<sender, view, block of the QC in the sender's sync info>>; the last component goes into the aggregate QC)
 OnRemoteTimeout(E, s, ev) ==
     LET curr == s.view
         s1 == AdvanceView(E, s, ev.si)
-        dup == <<ev.from, ev.view>> \in s1.tbag
-        bag == s1.tbag \cup {<<ev.from, ev.view>>}
-        quorum == ~dup /\ Cardinality({e \in bag : e[2] = ev.view}) >= E.q
+        dup == \E e \in s1.tbag : e[1] = ev.from /\ e[2] = ev.view
+        bag == s1.tbag \cup {<<ev.from, ev.view, ev.si.qc>>}
+        mine == {e \in bag : e[2] = ev.view}
+        quorum == ~dup /\ Cardinality(mine) >= E.q
+        cert == IF E.agg THEN [qc |-> s1.hqc, tc |-> ev.view, agg |-> ev.view, aggqcs |-> {e[3] : e \in mine} \ {-2}]
+                ELSE SI(s1.hqc, ev.view)
         s2 == IF dup THEN s1
               ELSE IF ~quorum THEN [s1 EXCEPT !.tbag = bag]
-              ELSE AdvanceView(E, [s1 EXCEPT !.tbag = {e \in bag : e[2] # ev.view}], [qc |-> s1.hqc, tc |-> ev.view]) IN
+              ELSE AdvanceView(E, [s1 EXCEPT !.tbag = {e \in bag : e[2] # ev.view}], cert) IN
     [s2 EXCEPT !.tbag = {e \in @ : e[2] >= curr}]
 OnLocalTimeout(E, s, ev) ==
     IF s.view # ev.view THEN s
     ELSE IF s.lastTO = s.view THEN Send(s, [type |-> "timeout", to |-> 0, view |-> s.view, si |-> s.lastTOsi])
-    ELSE LET si == [qc |-> s.hqc, tc |-> s.htc]
-             s1 == [s EXCEPT !.lastTO = s.view, !.lastTOsi = si, !.signed = Append(@, <<"tview", s.view>>), !.lv = Max(@, s.view)]
+    ELSE LET si == SI(s.hqc, s.htc)
+             sg == IF E.agg THEN <<<<"tview", s.view>>, <<"tmsg", s.view>>>> ELSE <<<<"tview", s.view>>>>     \* the aggregate rule signs the message too
+             s1 == [s EXCEPT !.lastTO = s.view, !.lastTOsi = si, !.signed = @ \o sg, !.lv = Max(@, s.view)]
              s2 == Send(s1, [type |-> "timeout", to |-> 0, view |-> s.view, si |-> si]) IN
          OnRemoteTimeout(E, s2, [type |-> "timeout", from |-> s.id, view |-> s.view, si |-> si])
 
@@ -206,5 +242,5 @@ Drain(E, s) == IF s.queue = <<>> THEN [s EXCEPT !.store = @ \cup (E.avail \cap D
 \* one input
 Input(E, s, ev) == Drain(E, [ClearOutputs(s) EXCEPT !.queue = <<ev>>])
 \* Synchronizer.Start: the leader of view 1 proposes
-Start(E, s) == IF s.view = 1 /\ LeaderOf(E, 1) = s.id THEN Drain(E, ProposeNew(E, ClearOutputs(s), [qc |-> s.hqc, tc |-> s.htc])) ELSE ClearOutputs(s)
+Start(E, s) == IF s.view = 1 /\ LeaderOf(E, 1) = s.id THEN Drain(E, ProposeNew(E, ClearOutputs(s), SI(s.hqc, s.htc))) ELSE ClearOutputs(s)
 =============================================================================
